@@ -17,6 +17,7 @@ type StoreProfile struct {
 	ExplicitTS bool           // enqueue with explicit received_at / next_run_at
 	PaddedIDs  bool
 	TieRecv    bool // several messages with identical received_at
+	NoIdioms   bool // independent steps only
 }
 
 var defaultWeights = map[string]int{
@@ -274,9 +275,70 @@ func GenStoreProgram(t *rapid.T, prof StoreProfile) *Program {
 		max = 40
 	}
 	g := &storeGen{t: t, prof: prof}
-	p.Steps = rapid.SliceOfN(rapid.Custom(func(t *rapid.T) Step {
+	groups := rapid.SliceOfN(rapid.Custom(func(t *rapid.T) []Step {
 		g2 := &storeGen{t: t, prof: g.prof}
-		return g2.step()
+		if !g.prof.NoIdioms && rapid.IntRange(0, 7).Draw(t, "idiom?") == 0 {
+			return g2.idiom()
+		}
+		return []Step{g2.step()}
 	}), 1, max).Draw(t, "steps")
+	for _, grp := range groups {
+		p.Steps = append(p.Steps, grp...)
+	}
 	return p
+}
+
+// idiom draws a short group of steps that belong together. Independent random
+// steps seldom line up route, target and lease reference; the idioms put the
+// store into the situations the properties talk about (a dead letter, a
+// delivered message, an expired lease next to a valid one, a full queue, a due
+// prune pass, a large backlog) and the surrounding random steps vary the rest.
+// The minimiser still removes their steps one by one.
+func (g *storeGen) idiom() []Step {
+	t := g.t
+	route := rapid.SampledFrom(genRoutes).Draw(t, "i.route")
+	target := rapid.SampledFrom(genTargets).Draw(t, "i.target")
+	enq := func() Step { return Step{Op: "enqueue", Env: &EnvSpec{ID: "new", Route: route, Target: target}} }
+	deq := func(ttl time.Duration) Step {
+		return Step{Op: "dequeue", Route: route, Target: target, Batch: 1, TTL: ttl}
+	}
+	switch rapid.SampledFrom([]string{"dead", "acked", "expired", "mixed_batch", "fill", "prune_pass", "bulk", "newer_rows"}).Draw(t, "i.kind") {
+	case "dead":
+		return []Step{enq(), deq(30 * time.Second), {Op: "dead", LeaseRef: intp(0), Reason: "manual"}}
+	case "acked":
+		return []Step{enq(), deq(30 * time.Second), {Op: "ack", LeaseRef: intp(0)}}
+	case "expired":
+		return []Step{enq(), deq(5 * time.Millisecond), {Op: "advance", D: rapid.SampledFrom([]time.Duration{5 * time.Millisecond, 6 * time.Millisecond, 20 * time.Millisecond}).Draw(t, "i.d")}}
+	case "mixed_batch":
+		// a still-valid and an expired-but-unswept lease settled in one batch call
+		op := rapid.SampledFrom([]string{"ack_batch", "nack_batch", "dead_batch"}).Draw(t, "i.op")
+		refs := rapid.SampledFrom([][]int{{0, 1}, {1, 0}, {0, 1, -3}, {1, -1, 0}}).Draw(t, "i.refs")
+		return []Step{enq(), enq(), deq(5 * time.Millisecond), deq(30 * time.Second), {Op: "advance", D: 20 * time.Millisecond}, {Op: op, LeaseRefs: refs, Delay: time.Second, Reason: "manual"}}
+	case "fill":
+		n := rapid.IntRange(2, 6).Draw(t, "i.n")
+		s := Step{Op: "enqueue_batch"}
+		for i := 0; i < n; i++ {
+			s.Items = append(s.Items, EnvSpec{ID: "new", Route: route, Target: target})
+		}
+		return []Step{s}
+	case "prune_pass":
+		d := rapid.SampledFrom([]time.Duration{time.Second, 5 * time.Minute, time.Hour + time.Second}).Draw(t, "i.d")
+		obs := rapid.SampledFrom([]string{"stats", "list", "list_dead", "dequeue"}).Draw(t, "i.obs")
+		st := Step{Op: obs}
+		if obs == "dequeue" {
+			st = deq(time.Second)
+		}
+		return []Step{{Op: "advance", D: d}, st}
+	case "newer_rows":
+		// rows of other states received after whatever exists now
+		return []Step{{Op: "advance", D: time.Millisecond}, enq(), enq(), enq()}
+	default: // bulk: more messages than the default page (100); the world's own full listing sees at most 1000, so no more than that
+		n := rapid.SampledFrom([]int{101, 101, 130, 150, 400}).Draw(t, "i.bulk")
+		lim := rapid.SampledFrom([]int{0, 100, 1000, 1001, 5000}).Draw(t, "i.limit")
+		st := Step{Op: rapid.SampledFrom([]string{"cancel_f", "requeue_f", "resume_f", "list"}).Draw(t, "i.fop"), Filter: &FilterSpec{Limit: lim, Preview: rapid.Bool().Draw(t, "i.preview")}}
+		if st.Op == "list" {
+			st.Filter.Preview = false
+		}
+		return []Step{{Op: "enqueue_batch", Bulk: n, Items: []EnvSpec{{ID: "new", Route: route, Target: target}}}, st}
+	}
 }
